@@ -44,7 +44,7 @@ use sim_core::Rng;
 
 use crate::cbor;
 use crate::exec::{Dec, DecFn};
-use crate::findings::{Kind, Route};
+use crate::faults::{WordEnc, WordField};
 
 type D = MithrilMembershipDigest;
 
@@ -100,8 +100,6 @@ pub struct Entry {
     /// public decode entry point (stable name, used in fingerprints / replay files)
     pub name: &'static str,
     pub dec: DecFn,
-    /// how the input reaches the STM binary decoders (used only for finding attribution)
-    pub route: Route,
 }
 
 pub struct Encoding {
@@ -110,6 +108,8 @@ pub struct Encoding {
     pub bytes: Vec<u8>,
     /// offsets of structurally located version / length / count bytes
     pub hot: Vec<usize>,
+    /// structurally located length / count / size fields (word-overwrite targets)
+    pub words: Vec<WordField>,
     pub entries: Vec<Entry>,
     /// false: a decoder of locally stored secrets, outside the property statement; run as a
     /// probe only (counters, never a violation)
@@ -173,14 +173,6 @@ impl<T: Same + Serialize + DeserializeOwned> Same for ProtocolKey<T> {
         let a: &T = self;
         let b: &T = o;
         a.same(b)
-    }
-}
-
-fn kind_of(ty: &str) -> Kind {
-    match ty {
-        "AggregateSignature" => Kind::Agg,
-        "SingleSignatureWithRegisteredParty" => Kind::SigReg,
-        _ => Kind::Other,
     }
 }
 
@@ -281,6 +273,82 @@ fn hot_in_doc(doc: &[u8], needles: &[&str], n: usize) -> Vec<usize> {
     hot
 }
 
+fn be_words(offsets: &[usize]) -> Vec<WordField> {
+    offsets.iter().map(|off| WordField { off: *off, width: 8, enc: WordEnc::Be, hex: false }).collect()
+}
+
+fn words_of_bytes(bytes: &[u8]) -> Vec<WordField> {
+    cbor::word_fields(bytes)
+}
+
+fn words_hex(words: &[WordField], at: usize) -> Vec<WordField> {
+    words.iter().map(|w| w.in_hex(at)).collect()
+}
+
+/// Located varints of the bincode (standard configuration) encoding of `MKProof` /
+/// `MKMapProof<BlockRange>`: every length, position and size. Layout (serde derive order):
+/// node = len bytes; MKProof = node, len x (position, node), size, len x node;
+/// MKMapProof = MKProof, len x (start, end, MKMapProof). Returns nothing unless the walk
+/// consumes the buffer exactly.
+fn bincode_words(bytes: &[u8], map_proof: bool) -> Vec<WordField> {
+    fn varint(b: &[u8], pos: &mut usize, out: &mut Vec<WordField>) -> Option<u64> {
+        let at = *pos;
+        let first = *b.get(at)?;
+        let (val, width) = match first {
+            0..=250 => (first as u64, 0usize),
+            0xfb => (u16::from_le_bytes(b.get(at + 1..at + 3)?.try_into().ok()?) as u64, 2),
+            0xfc => (u32::from_le_bytes(b.get(at + 1..at + 5)?.try_into().ok()?) as u64, 4),
+            0xfd => (u64::from_le_bytes(b.get(at + 1..at + 9)?.try_into().ok()?), 8),
+            _ => return None,
+        };
+        if width == 0 {
+            out.push(WordField { off: at, width: 1, enc: WordEnc::Le, hex: false });
+        } else {
+            out.push(WordField { off: at + 1, width, enc: WordEnc::Le, hex: false });
+        }
+        out.push(WordField { off: at, width: 8, enc: WordEnc::BincodeMarker, hex: false });
+        *pos = at + 1 + width;
+        Some(val)
+    }
+    fn node(b: &[u8], pos: &mut usize, out: &mut Vec<WordField>) -> Option<()> {
+        let len = usize::try_from(varint(b, pos, out)?).ok()?;
+        *pos = pos.checked_add(len)?;
+        (*pos <= b.len()).then_some(())
+    }
+    fn proof(b: &[u8], pos: &mut usize, out: &mut Vec<WordField>) -> Option<()> {
+        node(b, pos, out)?;
+        for _ in 0..varint(b, pos, out)? {
+            varint(b, pos, out)?;
+            node(b, pos, out)?;
+        }
+        varint(b, pos, out)?;
+        for _ in 0..varint(b, pos, out)? {
+            node(b, pos, out)?;
+        }
+        Some(())
+    }
+    fn map(b: &[u8], pos: &mut usize, out: &mut Vec<WordField>, depth: usize) -> Option<()> {
+        if depth > 16 {
+            return None;
+        }
+        proof(b, pos, out)?;
+        for _ in 0..varint(b, pos, out)? {
+            varint(b, pos, out)?;
+            varint(b, pos, out)?;
+            map(b, pos, out, depth + 1)?;
+        }
+        Some(())
+    }
+    let mut out = Vec::new();
+    let mut pos = 0usize;
+    let ok = if map_proof { map(bytes, &mut pos, &mut out, 0) } else { proof(bytes, &mut pos, &mut out) };
+    assert!(
+        ok.is_some() && pos == bytes.len(),
+        "the bincode walker does not match the honest encoding (layout changed?)"
+    );
+    out
+}
+
 /// offsets of the structural characters of a JSON text (at most 256, evenly thinned)
 fn json_structural(doc: &[u8]) -> Vec<usize> {
     let all: Vec<usize> = doc
@@ -303,6 +371,8 @@ pub struct Packed {
     pub bytes: Vec<u8>,
     /// offsets of every byte of every length / count / index field
     pub fields: Vec<usize>,
+    /// offsets of the 8-byte big-endian length / count / size fields (word-overwrite targets)
+    pub words: Vec<usize>,
 }
 
 impl Packed {
@@ -311,16 +381,22 @@ impl Packed {
         self.fields.extend(at..at + 8);
         self.bytes.extend_from_slice(&v.to_be_bytes());
     }
+    /// a length / count / size field
+    fn u64_len(&mut self, v: u64) {
+        self.words.push(self.bytes.len());
+        self.u64_field(v);
+    }
     fn raw(&mut self, b: &[u8]) {
         self.bytes.extend_from_slice(b);
     }
     fn nested(&mut self, p: &Packed) {
         let at = self.bytes.len();
+        self.words.extend(p.words.iter().map(|f| f + at));
         self.fields.extend(p.fields.iter().map(|f| f + at));
         self.bytes.extend_from_slice(&p.bytes);
     }
     fn sized(&mut self, p: &Packed) {
-        self.u64_field(p.bytes.len() as u64);
+        self.u64_len(p.bytes.len() as u64);
         self.nested(p);
     }
 }
@@ -345,7 +421,7 @@ fn json_u64s(v: &Value) -> Vec<u64> {
 fn legacy_single_signature(sig_json: &Value) -> Packed {
     let mut p = Packed::default();
     let indexes = json_u64s(&sig_json["indexes"]);
-    p.u64_field(indexes.len() as u64);
+    p.u64_len(indexes.len() as u64);
     for i in &indexes {
         p.u64_field(*i);
     }
@@ -380,8 +456,8 @@ fn legacy_batch_path(bp_json: &Value) -> Packed {
         .map(json_bytes)
         .collect();
     let indices = json_u64s(&bp_json["indices"]);
-    p.u64_field(values.len() as u64);
-    p.u64_field(indices.len() as u64);
+    p.u64_len(values.len() as u64);
+    p.u64_len(indices.len() as u64);
     for v in &values {
         p.raw(v);
     }
@@ -395,7 +471,7 @@ fn legacy_batch_path(bp_json: &Value) -> Packed {
 fn legacy_concatenation_proof(proof_json: &Value) -> Packed {
     let mut p = Packed::default();
     let sigs = proof_json["signatures"].as_array().expect("signatures");
-    p.u64_field(sigs.len() as u64);
+    p.u64_len(sigs.len() as u64);
     for s in sigs {
         p.sized(&legacy_sig_reg(s));
     }
@@ -415,7 +491,7 @@ fn legacy_aggregate_signature(agg_json: &Value) -> Packed {
 /// `nr_leaves | root | total_stake`
 fn legacy_avk(avk_json: &Value) -> Packed {
     let mut p = Packed::default();
-    p.u64_field(
+    p.u64_len(
         avk_json["mt_commitment"]["nr_leaves"]
             .as_u64()
             .expect("nr_leaves"),
@@ -477,9 +553,26 @@ impl Builder {
             form,
             bytes,
             hot,
+            words: Vec::new(),
             entries,
             in_statement,
         });
+    }
+
+    /// Attach the located length fields to the encoding pushed last (at most 32, thinned
+    /// evenly, the first 8 always kept).
+    fn words(&mut self, mut words: Vec<WordField>) {
+        let enc = self.encs.last_mut().expect("an encoding was pushed");
+        let unit = |w: &WordField| if w.hex { 2 } else { 1 };
+        words.retain(|w| w.off + unit(w) * w.width <= enc.bytes.len());
+        if words.len() > 32 {
+            let head: Vec<WordField> = words[..8].to_vec();
+            let tail = &words[8..];
+            let mut thin: Vec<WordField> = (0..24).map(|i| tail[i * tail.len() / 24]).collect();
+            words = head;
+            words.append(&mut thin);
+        }
+        enc.words = words;
     }
 
     /// All forms of a type that has the binary (`TryToBytes`/`TryFromBytes`) and JSON codecs and
@@ -504,23 +597,17 @@ impl Builder {
     {
         let bytes = v.to_bytes_vec().expect("honest value encodes to bytes");
         let hot = hot_of_bytes(&bytes);
-        let (r_bin, r_hex) = match kind_of(ty) {
-            Kind::Other => (Route::None, Route::None),
-            k => (Route::Bytes(k), Route::Hex(k)),
-        };
         let bin_entries = |v: &T| {
             vec![
                 Entry {
                     name: "TryFromBytes::try_from_bytes",
                     dec: dec_bytes(v, |b| T::try_from_bytes(b)),
-                    route: r_bin,
                 },
                 Entry {
                     name: "ProtocolKey::from_bytes",
                     dec: dec_bytes(&ProtocolKey::new(v.clone()), |b| {
                         ProtocolKey::<T>::from_bytes(b)
                     }),
-                    route: r_bin,
                 },
             ]
         };
@@ -529,14 +616,12 @@ impl Builder {
                 Entry {
                     name: "TryFromBytes::try_from_bytes_hex",
                     dec: dec_str(v, |s| T::try_from_bytes_hex(s)),
-                    route: r_hex,
                 },
                 Entry {
                     name: "ProtocolKey::from_bytes_hex",
                     dec: dec_str(&ProtocolKey::new(v.clone()), |s| {
                         ProtocolKey::<T>::from_bytes_hex(s)
                     }),
-                    route: r_hex,
                 },
             ]
         };
@@ -548,6 +633,8 @@ impl Builder {
             bin_entries(v),
             in_statement,
         );
+        let words = words_of_bytes(&bytes);
+        self.words(words.clone());
         self.push_scoped(
             ty,
             "bytes-hex",
@@ -556,6 +643,7 @@ impl Builder {
             hex_entries(v),
             in_statement,
         );
+        self.words(words_hex(&words, 0));
         if let Some(p) = legacy {
             self.push_scoped(
                 ty,
@@ -565,6 +653,7 @@ impl Builder {
                 bin_entries(v),
                 in_statement,
             );
+            self.words(be_words(&p.words));
             self.push_scoped(
                 ty,
                 "legacy-hex",
@@ -573,6 +662,7 @@ impl Builder {
                 hex_entries(v),
                 in_statement,
             );
+            self.words(words_hex(&be_words(&p.words), 0));
         }
         let json_hex =
             ProtocolKey::<T>::key_to_json_hex(v).expect("honest value encodes to JSON hex");
@@ -586,7 +676,6 @@ impl Builder {
                 dec: dec_str(&ProtocolKey::new(v.clone()), |s| {
                     ProtocolKey::<T>::from_json_hex(s)
                 }),
-                route: Route::None,
             }],
             in_statement,
         );
@@ -599,7 +688,6 @@ impl Builder {
             vec![Entry {
                 name: "serde_json::from_slice",
                 dec: dec_bytes(v, |b| serde_json::from_slice::<T>(b)),
-                route: Route::None,
             }],
             in_statement,
         );
@@ -621,16 +709,18 @@ impl Builder {
             + 'static,
     {
         let key = ProtocolKey::new(v.clone());
-        let mut texts: Vec<(&'static str, String, Vec<usize>)> = vec![
+        let mut texts: Vec<(&'static str, String, Vec<usize>, Vec<WordField>)> = vec![
             (
                 "codec:json-hex",
                 key.to_json_hex().expect("json hex"),
                 (0..64).collect(),
+                vec![],
             ),
             (
                 "codec:bytes-hex",
                 key.to_bytes_hex().expect("bytes hex"),
                 hot_hex(&hot_of_bytes(&v.to_bytes_vec().expect("bytes"))),
+                words_of_bytes(&v.to_bytes_vec().expect("bytes")),
             ),
         ];
         if let Some(p) = legacy {
@@ -638,9 +728,10 @@ impl Builder {
                 "codec:legacy-hex",
                 hex::encode(&p.bytes),
                 hot_hex(&p.fields),
+                be_words(&p.words),
             ));
         }
-        for (form, text, hot) in texts {
+        for (form, text, hot, words) in texts {
             self.push(
                 ty,
                 form,
@@ -649,12 +740,9 @@ impl Builder {
                 vec![Entry {
                     name: "ProtocolKey::try_from(&str)",
                     dec: dec_str(&key, |s| ProtocolKey::<T>::try_from(s)),
-                    route: match kind_of(ty) {
-                        Kind::Other => Route::None,
-                        k => Route::Str(k),
-                    },
                 }],
             );
+            self.words(words_hex(&words, 0));
             // the same string as a JSON document (what serde sees inside a message)
             let doc = serde_json::to_vec(&text).expect("json string");
             let form_doc: &'static str = match form {
@@ -670,12 +758,9 @@ impl Builder {
                 vec![Entry {
                     name: "serde_json::from_slice::<ProtocolKey>",
                     dec: dec_bytes(&key, |b| serde_json::from_slice::<ProtocolKey<T>>(b)),
-                    route: match kind_of(ty) {
-                        Kind::Other => Route::None,
-                        k => Route::StrDoc(k),
-                    },
                 }],
             );
+            self.words(words_hex(&words, 1));
         }
     }
 
@@ -704,10 +789,6 @@ impl Builder {
                         let s = String::from_utf8_lossy(b);
                         ProtocolKey::<T>::try_from(&*s).map(|_| true).map_err(short)
                     }),
-                    route: match kind_of(ty) {
-                        Kind::Other => Route::None,
-                        k => Route::Str(k),
-                    },
                 }],
             );
         }
@@ -1190,7 +1271,6 @@ impl Builder {
                         .map(|d| d == honest)
                         .map_err(short)
                 }),
-                route: Route::None,
             }],
         );
     }
@@ -1216,7 +1296,6 @@ impl Builder {
                         .map(|d| to_value(&d) == honest)
                         .map_err(short)
                 }),
-                route: Route::None,
             }],
         );
     }
@@ -1241,7 +1320,6 @@ impl Builder {
                             .map(|d| d == honest)
                             .map_err(short)
                     }),
-                    route: Route::None,
                 },
                 Entry {
                     // what mithril-aggregator's FromRegisterSignerAdapter does with the message
@@ -1253,7 +1331,6 @@ impl Builder {
                         let back = message_from_signer(d.epoch, &signer).map_err(short)?;
                         Ok(d == honest2 && back == honest2)
                     }),
-                    route: Route::None,
                 },
             ],
         );
@@ -1279,7 +1356,6 @@ impl Builder {
                     let same_sig = sig.to_json_hex().map_err(short)? == honest.signature;
                     Ok(d == honest && same_sig)
                 }),
-                route: Route::None,
             }],
         );
     }
@@ -1292,6 +1368,11 @@ impl Builder {
         hot.extend(2..2 + set_len.min(24));
         hot.extend(2 + set_len..2 + set_len + 4);
         let sig_at = 2 + set_len + 4;
+        let mut words = vec![
+            WordField { off: 0, width: 2, enc: WordEnc::Be, hex: false },
+            WordField { off: 2 + set_len, width: 4, enc: WordEnc::Be, hex: false },
+        ];
+        words.extend(words_of_bytes(&bytes[sig_at..]).iter().map(|w| w.shifted(sig_at)));
         hot.extend(
             hot_of_bytes(&bytes[sig_at..])
                 .into_iter()
@@ -1305,9 +1386,9 @@ impl Builder {
             vec![Entry {
                 name: "RegisterSignatureMessageDmq::try_from_bytes_vec",
                 dec: dec_bytes(m, |b| RegisterSignatureMessageDmq::try_from_bytes_vec(b)),
-                route: Route::None,
             }],
         );
+        self.words(words.clone());
         self.push(
             "RegisterSignatureMessageDmq",
             "frame-hex",
@@ -1316,9 +1397,9 @@ impl Builder {
             vec![Entry {
                 name: "TryFromBytes::try_from_bytes_hex",
                 dec: dec_str(m, |s| RegisterSignatureMessageDmq::try_from_bytes_hex(s)),
-                route: Route::None,
             }],
         );
+        self.words(words_hex(&words, 0));
     }
 
     fn signed_entity_type(&mut self, t: &SignedEntityType) {
@@ -1331,7 +1412,6 @@ impl Builder {
             vec![Entry {
                 name: "TryFromBytes::try_from_bytes",
                 dec: dec_bytes(t, |b| SignedEntityType::try_from_bytes(b)),
-                route: Route::None,
             }],
         );
     }
@@ -1362,7 +1442,6 @@ impl Builder {
                             .map(|d| d == honest)
                             .map_err(short)
                     }),
-                    route: Route::None,
                 },
                 Entry {
                     name: "serde_json::from_slice + Certificate::try_from(CertificateMessage)",
@@ -1372,7 +1451,6 @@ impl Builder {
                         let back: CertificateMessage = cert.try_into().map_err(short)?;
                         Ok(d == honest2 && back == honest2)
                     }),
-                    route: Route::CertDoc,
                 },
             ],
         );
@@ -1380,6 +1458,7 @@ impl Builder {
 
     fn mk_proof(&mut self, p: &MKProof) {
         let bytes = p.to_bytes().expect("MKProof bincode");
+        let words = bincode_words(&bytes, false);
         let hot: Vec<usize> = (0..bytes.len().min(48)).collect();
         self.push(
             "MKProof",
@@ -1390,17 +1469,16 @@ impl Builder {
                 Entry {
                     name: "MKProof::from_bytes",
                     dec: dec_bytes(p, |b| MKProof::from_bytes(b)),
-                    route: Route::None,
                 },
                 Entry {
                     name: "ProtocolKey::from_bytes",
                     dec: dec_bytes(&ProtocolKey::new(p.clone()), |b| {
                         ProtocolKey::<MKProof>::from_bytes(b)
                     }),
-                    route: Route::None,
                 },
             ],
         );
+        self.words(words.clone());
         self.push(
             "MKProof",
             "bincode-hex",
@@ -1411,9 +1489,9 @@ impl Builder {
                 dec: dec_str(&ProtocolKey::new(p.clone()), |s| {
                     ProtocolKey::<MKProof>::from_bytes_hex(s)
                 }),
-                route: Route::None,
             }],
         );
+        self.words(words_hex(&words, 0));
         let json_hex = ProtocolKey::<MKProof>::key_to_json_hex(p).expect("json hex");
         self.push(
             "MKProof",
@@ -1425,7 +1503,6 @@ impl Builder {
                 dec: dec_str(&ProtocolKey::new(p.clone()), |s| {
                     ProtocolKey::<MKProof>::from_json_hex(s)
                 }),
-                route: Route::None,
             }],
         );
         self.push(
@@ -1436,13 +1513,13 @@ impl Builder {
             vec![Entry {
                 name: "serde_json::from_slice",
                 dec: dec_bytes(p, |b| serde_json::from_slice::<MKProof>(b)),
-                route: Route::None,
             }],
         );
     }
 
     fn mk_map_proof(&mut self, p: &MKMapProof<BlockRange>) {
         let bytes = p.to_bytes().expect("MKMapProof bincode");
+        let words = bincode_words(&bytes, true);
         let hot: Vec<usize> = (0..bytes.len().min(48)).collect();
         self.push(
             "MKMapProof",
@@ -1453,17 +1530,16 @@ impl Builder {
                 Entry {
                     name: "MKMapProof::from_bytes",
                     dec: dec_bytes(p, |b| MKMapProof::<BlockRange>::from_bytes(b)),
-                    route: Route::None,
                 },
                 Entry {
                     name: "ProtocolMkProof::from_bytes",
                     dec: dec_bytes(&ProtocolKey::new(p.clone()), |b| {
                         ProtocolMkProof::from_bytes(b)
                     }),
-                    route: Route::None,
                 },
             ],
         );
+        self.words(words.clone());
         self.push(
             "MKMapProof",
             "bincode-hex",
@@ -1474,9 +1550,9 @@ impl Builder {
                 dec: dec_str(&ProtocolKey::new(p.clone()), |s| {
                     ProtocolMkProof::from_bytes_hex(s)
                 }),
-                route: Route::None,
             }],
         );
+        self.words(words_hex(&words, 0));
         let json_hex = ProtocolMkProof::new(p.clone())
             .to_json_hex()
             .expect("json hex");
@@ -1490,7 +1566,6 @@ impl Builder {
                 dec: dec_str(&ProtocolKey::new(p.clone()), |s| {
                     ProtocolMkProof::from_json_hex(s)
                 }),
-                route: Route::None,
             }],
         );
         self.push(
@@ -1501,7 +1576,6 @@ impl Builder {
             vec![Entry {
                 name: "serde_json::from_slice",
                 dec: dec_bytes(p, |b| serde_json::from_slice::<MKMapProof<BlockRange>>(b)),
-                route: Route::None,
             }],
         );
     }
@@ -1536,7 +1610,6 @@ impl Builder {
                     }
                     Ok(d == honest && back == honest.certified_transactions)
                 }),
-                route: Route::None,
             }],
         );
     }
@@ -1549,6 +1622,7 @@ impl Builder {
             .map(|p| p.proof.as_str())
             .collect();
         let hot = hot_in_doc(&doc, &needles, 48);
+        let words = words_of_hex_proof_in_doc(&doc, needles.first().copied());
         let honest = m.clone();
         self.push(
             "CardanoTransactionsProofsV2Message",
@@ -1571,9 +1645,9 @@ impl Builder {
                     }
                     Ok(d == honest && back == honest.certified_transactions)
                 }),
-                route: Route::None,
             }],
         );
+        self.words(words);
     }
 
     fn proofs_v2_blocks(&mut self, m: &CardanoBlocksProofsMessage) {
@@ -1584,6 +1658,7 @@ impl Builder {
             .map(|p| p.proof.as_str())
             .collect();
         let hot = hot_in_doc(&doc, &needles, 48);
+        let words = words_of_hex_proof_in_doc(&doc, needles.first().copied());
         let honest = m.clone();
         self.push(
             "CardanoBlocksProofsMessage",
@@ -1606,9 +1681,9 @@ impl Builder {
                     }
                     Ok(d == honest && back == honest.certified_blocks)
                 }),
-                route: Route::None,
             }],
         );
+        self.words(words);
     }
 
     fn initializer(&mut self, init: &ProtocolInitializer) {
@@ -1616,6 +1691,8 @@ impl Builder {
         let honest = bytes.clone();
         let mut hot: Vec<usize> = (0..8).collect();
         hot.extend(hot_of_bytes(&bytes[8..]).into_iter().map(|h| h + 8));
+        let mut words = be_words(&[0]);
+        words.extend(words_of_bytes(&bytes[8..]).iter().map(|w| w.shifted(8)));
         self.push_scoped(
             "ProtocolInitializer(local secret)",
             "bytes",
@@ -1629,10 +1706,10 @@ impl Builder {
                         .map(|again| again == honest)
                         .map_err(short)
                 }),
-                route: Route::None,
             }],
             false,
         );
+        self.words(words);
         let doc = serde_json::to_vec(init).expect("initializer json");
         let honest = serde_json::to_value(init).expect("initializer json value");
         self.push_scoped(
@@ -1647,11 +1724,19 @@ impl Builder {
                         .map(|d| to_value(&d) == honest)
                         .map_err(short)
                 }),
-                route: Route::None,
             }],
             false,
         );
     }
+}
+
+/// word fields of the bincode proof carried as a hex string inside a JSON document
+fn words_of_hex_proof_in_doc(doc: &[u8], proof_hex: Option<&str>) -> Vec<WordField> {
+    let Some(text) = proof_hex else { return vec![] };
+    let Ok(bytes) = hex::decode(text) else { return vec![] };
+    let needle = text.as_bytes();
+    let Some(at) = doc.windows(needle.len()).position(|w| w == needle) else { return vec![] };
+    words_hex(&bincode_words(&bytes, true), at)
 }
 
 fn string_values(v: &Value) -> Vec<String> {
